@@ -27,6 +27,9 @@ type histOpts struct {
 	names        int // size of the name pools
 	between      bool // traffic between Bind and Execute
 	bigValues    bool // parameter values that cross the 4 KiB allocation granule
+	retain       bool // statement functions retain their parameters (C18)
+	sizes        bool // messages with body sizes around the 4 KiB granule and the limit
+	tails        bool // grammar-external surplus bytes inside messages (C03)
 }
 
 type histGen struct {
@@ -73,6 +76,9 @@ func (g *histGen) genStmt(ext bool) *StmtProg {
 	sp := &StmtProg{}
 	ncols := r.PickInt(0, 1, 1, 2, 3, 4)
 	sp.Cols = genCols(r, ncols, g.oids())
+	if g.o.retain {
+		sp.Ops = append(sp.Ops, Op{K: "retain"})
+	}
 	if ext && g.o.params {
 		np := r.PickInt(0, 1, 2, 3, 5)
 		sp.Params = make([]uint32, np)
@@ -191,6 +197,14 @@ func (g *histGen) genCopyStmt() (*StmtProg, []pgwire.FMsg) {
 }
 
 func (g *histGen) add(ms ...pgwire.FMsg) {
+	if g.o.tails {
+		for i := range ms {
+			m := &ms[i]
+			if len(m.K) == 1 && m.K != "d" && m.K != "p" && m.Tail == nil && g.r.Chance(1, 3) {
+				m.Tail = g.r.Bytes(g.r.Range(1, 9))
+			}
+		}
+	}
 	g.msgs = append(g.msgs, ms...)
 	for g.done < len(g.msgs) && !g.stop {
 		bs := g.m.Step(g.st, g.msgs, g.done)
@@ -430,6 +444,35 @@ func (g *histGen) unit() {
 				}
 			}})
 		}
+	}
+	if g.o.sizes {
+		cs = append(cs, choice{4, func() {
+			L := g.m.Limit
+			size := r.PickInt(1, 100, 4090, 4095, 4096, 4097, 4100, 8191, 8192, L-1, L, L-5)
+			if size > L {
+				size = L
+			}
+			switch r.Intn(4) {
+			case 0, 1: // a simple query of exactly that body size
+				key := g.newKey()
+				g.c.Programs[key] = &Program{Stmts: []*StmtProg{g.genStmt(false)}}
+				q := key
+				for len(q)+1 < size {
+					n := size - len(q) - 1
+					if n > 64 {
+						n = 64
+					}
+					q += " " + r.Ident(n-1)
+				}
+				g.add(pgwire.FMsg{K: "Q", S1: q})
+			case 2: // stray CopyData of that size (ignored, but it moves the buffer window)
+				g.add(pgwire.FMsg{K: "d", Data: r.Bytes(size)})
+			case 3: // an oversized message skipped in several chunks
+				if L < 1<<20 {
+					g.add(pgwire.FMsg{K: "typed", T: 'Q', Pad: int64(L) + int64(r.PickInt(1, L, 2*L+1, 3*L)), PadPat: []byte("overwrite-attempt ")})
+				}
+			}
+		}})
 	}
 	if g.o.unknown {
 		cs = append(cs, choice{1, func() {
